@@ -41,6 +41,23 @@ def items(b, tag):
                                                            b.state_var(b.ty('Uint', 256), '_' + y, [b.vattr('visibility', 'public')])], name='Const' + tag),
         'library': lambda: fam.contract_with(b, [make_function(b, 'Function', 'internal', False, True, False, name='lib' + tag)], kind='Library', name='Lib' + tag),
         'interface': lambda: fam.contract_with(b, [make_function(b, 'Function', 'external', False, False, False, name='api' + tag)], kind='Interface', name='Api' + tag),
+        # declarations WITHOUT a body (interface, abstract contract) carry everything a detector collects per function -- parameters with a
+        # data location, names, visibility -- but nothing that would close the bookkeeping for them: whatever is collected for them must
+        # not surface in (or hide something of) the item that follows
+        'interface_bodyless_memory_params': lambda: fam.contract_with(b, [
+            b.function('Function', 'setURI' + tag, [b.param(b.ty('String'), 'Memory', 'uri' + tag), b.param(b.ty('DynamicBytes'), 'Memory', 'data' + tag)], [b.fattr('visibility', 'external')], None),
+            b.function('Function', 'sum' + tag, [b.param(b.index(b.ty('Uint', 256)), 'Memory', 'ids' + tag), b.param(b.ty('Uint', 256), None, 'k' + tag)], [b.fattr('visibility', 'external')], None)],
+            kind='Interface', name='IApi' + tag),
+        'abstract_bodyless_memory_params': lambda: fam.contract_with(b, [
+            b.state_var(b.ty('Uint', 256), x),
+            b.function('Function', '_hook' + tag, [b.param(b.ty('DynamicBytes'), 'Memory', 'payload' + tag)], [b.fattr('visibility', 'internal'), b.fattr('virtual')], None),
+            b.function('Function', 'run' + tag, [b.param(b.ty('String'), 'Memory', 'note' + tag)], [b.fattr('visibility', 'public')],
+                       b.block([b.expr_stmt(b.bin('Assign', v('note' + tag), b.string('changed')))]))],
+            kind='Abstract', name='Base' + tag),
+        'contract_memory_params': lambda: fam.contract_with(b, [
+            b.function('Function', 'read' + tag, [b.param(b.ty('String'), 'Memory', 'text' + tag)], [b.fattr('visibility', 'external')], b.block([b.expr_stmt(v('text' + tag))])),
+            b.function('Function', 'write' + tag, [b.param(b.ty('String'), 'Memory', 'buf' + tag)], [b.fattr('visibility', 'external')],
+                       b.block([b.expr_stmt(b.bin('Assign', v('buf' + tag), b.string('w')))]))], name='Mem' + tag),
         'free_function': lambda: b.supart(b.function('Function', 'free' + tag, [b.param(b.ty('String'), 'Memory', 's')], [],
                                                      b.block([b.expr_stmt(b.bin('Subtract', v('a'), n(1))), req(v('c'), b.string('m'))]))),
         'struct': lambda: b.supart(b.struct('T' + tag, [(b.ty('Uint', 8), 'a'), (b.ty('Uint', 256), 'bq'), (b.ty('Uint', 8), 'c')])),
@@ -186,7 +203,10 @@ def body(chk):
         core = [t for t in todo if t[2] != 'first' or 'ctor' in t[0] + t[1]] + [t for t in todo if 'kill' in t[0] and 'kill' in t[1] and t[0] != t[1]] + [t for t in todo if 'user_typed' in t[0] + t[1] and ('enum' in t[0] + t[1])]
         chk.rng.shuffle(core)
         core = [t for t in core if ('kill' in t[0] and 'kill' in t[1]) or ('user_typed' in t[0] + t[1] and 'enum' in t[0] + t[1])] + core
-        todo = (core[:40] + todo[:40] + unicode_first[:6])
+        bodyless = [t for t in todo if t[2] == 'first' and 'bodyless' in t[0] and t[1] in ('contract_rich', 'free_function', 'library', 'contract_memory_params', 'empty_contract')] \
+            + [t for t in todo if t[2] == 'first' and 'bodyless' in t[1] and t[0] in ('contract_memory_params', 'free_function')]
+        core = bodyless + core
+        todo = (core[:40 + len(bodyless)] + todo[:40] + unicode_first[:6])
     chk.bounds = {'files': '%d pairs of top-level items x %d detectors' % (len(todo), len(DETECTORS)),
                   'items': kinds, 'pragma': 'before, between and after the items; versions on both sides of the 0.8.4 gate',
                   'outside': 'more than two items; items that mention each other\'s state variables (excluded by the property)'}
